@@ -279,6 +279,33 @@ def h_family_twin(case: int) -> bool:
 
 
 # ---------------------------------------------------------------- step lemma (symbolic strings)
+def _kids_pre(new_side):
+    """children of a slot row in the grouped-diff shape make_pre produces: child rule `c` whose value changes (one key
+    carrying REMOVED + ADDED) and, on the new side, an added child `d`"""
+    from annet.annlib.types import Op
+
+    def ops(**kw):
+        d = {Op.ADDED: [], Op.REMOVED: [], Op.MOVED: [], Op.AFFECTED: [], Op.UNCHANGED: []}
+        for k, v in kw.items():
+            d[getattr(Op, k)] = [{"row": r, "children": odict()} for r in v]
+        return d
+    pre = odict()
+    pre["c"] = {"attrs": {}, "items": odict([((), ops(REMOVED=["c 1"], ADDED=["c 2"]) if new_side else ops(REMOVED=["c 1"]))])}
+    if new_side:
+        pre["d *"] = {"attrs": {}, "items": odict([(("1",), ops(ADDED=["d 1"]))])}
+    return pre
+
+
+def _added_rows(pre):
+    from annet.annlib.types import Op
+    out = set()
+    for content in (pre or {}).values():
+        for ops in content["items"].values():
+            for it in ops[Op.ADDED]:
+                out.add(it["row"])
+    return out
+
+
 def _slot_device(logic_name, old_row, new_row, key0, rev_tpl, moved, old_children, new_children):
     """Run one common logic function on one (rule,key) slot and execute what it yields on a one-slot device.
     Returns (final_row, emitted) where final_row is None when the slot is empty."""
@@ -292,7 +319,7 @@ def _slot_device(logic_name, old_row, new_row, key0, rev_tpl, moved, old_childre
         elif old_children != new_children:
             diff[Op.AFFECTED].append({"row": new_row, "children": new_children})
         else:
-            diff[Op.UNCHANGED].append({"row": new_row, "children": None})
+            diff[Op.UNCHANGED].append({"row": new_row, "children": odict()})
     else:
         if old_row is not None:
             diff[Op.REMOVED].append({"row": old_row, "children": old_children})
@@ -303,8 +330,12 @@ def _slot_device(logic_name, old_row, new_row, key0, rev_tpl, moved, old_childre
     slot = old_row
     emitted = []
     undo_cmd = "undo k " + key0
+    must_send = _added_rows(new_children) if new_row is not None else set()
     for (direct, row, children) in logic(rule=rule, key=key, diff=diff, hw=None, rule_pre=None, root_pre=None):
         emitted.append((direct, row))
+        if direct and new_row is not None and row == new_row and not must_send <= _added_rows(children):
+            # the (re-)created row is handed on without some of the lines that have to be added below it
+            return ("LOST-CHILD", emitted)
     # make_patch sorts a key's removal before its re-creation (checked by the pipeline obligations and by C08),
     # so the one-slot device executes removals first
     for (direct, row) in emitted:
@@ -330,8 +361,8 @@ def h_step(has_old: bool, has_new: bool, same: bool, moved: bool, kids: bool, ke
     """
     old_row = ("k " + key0 + " " + v1) if has_old else None
     new_row = (old_row if (same and has_old) else "k " + key0 + " " + v2) if has_new else None
-    kids_old = {"c": 1} if kids else None
-    kids_new = {"c": 2} if kids else None
+    kids_old = _kids_pre(False) if kids else odict()
+    kids_new = _kids_pre(True) if kids else odict()
     final, emitted = _slot_device(LOGIC, old_row, new_row, key0, "undo k {}", moved, kids_old, kids_new)
     # expectation
     if LOGIC == "permanent" and has_old and (not has_new or old_row != new_row):
@@ -362,8 +393,8 @@ def replay_step(case):
     logic = case["logic"]
     old_row = ("k " + key0 + " " + v1) if has_old else None
     new_row = (old_row if (same and has_old) else "k " + key0 + " " + v2) if has_new else None
-    kids_old = {"c": 1} if case["kids"] else None
-    kids_new = {"c": 2} if case["kids"] else None
+    kids_old = _kids_pre(False) if case["kids"] else odict()
+    kids_new = _kids_pre(True) if case["kids"] else odict()
     final, emitted = _slot_device(logic, old_row, new_row, key0, "undo k {}", case["moved"], kids_old, kids_new)
     if logic == "permanent" and has_old and (not has_new or old_row != new_row):
         want = old_row
